@@ -216,6 +216,173 @@ def h_idle(ctx, plan):
   ctx.witness('done')
 
 
+
+# ---- O4: real threads interleaved at source-line granularity ----------------------------------------------------------
+SCENARIOS = {
+  # name: (foreign thread programs, cooperative extras).  Program letters: c callLater(next callable), w schedule(sleeper task T),
+  # S..s enter / leave `with scheduler.synchronized()` (two explicit scheduling points inside), N..n the same, nested twice
+  'call2+1':   (['cc', 'c'], ''),
+  'call1+1':   (['c', 'c'], ''),
+  'wake1+1':   (['w', 'w'], 'T'),
+  'wake2':     (['ww'], 'T'),
+  'call+wake': (['cw', 'c'], 'T'),
+  'wake+coop': (['w'], 'TW'),          # W: a cooperative task wakes T as well (scheduler-thread path of schedule())
+  'sync':      (['Ss'], 'K'),          # K: a cooperative task that keeps stepping
+  'sync+call': (['Ss', 'c'], 'K'),
+  'sync2':     (['Ss', 'Ss'], 'K'),
+  'nested':    (['Nn'], 'K'),
+  'call+coopcall': (['c'], 'C'),       # C: a cooperative task submits a callable too
+  'call3':     (['c', 'c', 'c'], ''),
+}
+
+
+def h_preempt(ctx, scenario, hub, bound):
+  """Foreign threads, the scheduler thread (real Scheduler.run) and, in threaded mode, the select-hub thread (real _threadProc)
+  are real threads run one source line of recoco.py at a time; the interleaving is chosen by solver variables, all interleavings
+  with <= bound preemptions are explored.  Lock/Event/select/pinger are models (props/ilv.py)."""
+  from props import ilv
+  progs, extras = SCENARIOS[scenario]
+  env.quiet()
+  R = ctx.pox('pox.lib.recoco.recoco'); U = ctx.pox('pox.lib.util')
+  clock = env.Clock(1000)
+  saved = (R.threading, R.Thread, getattr(R, 'select'), R.time, U.makePinger)
+  import gc, linecache, re
+  gc.collect(); gc.disable()      # a generator of an earlier path collected inside a traced thread would add scheduling points
+  shared = re.compile(r'_pinger|_incoming|_return|_select_func|pongAll|_scheduler|_hasQuit')
+  def line_filter(frame, st):
+    # SelectHub._select works on locals and on the task table that only the selecting thread touches: only its lines that
+    # reach shared objects are scheduling points (local steps commute with every step of another thread)
+    if frame.f_code.co_name != '_select': return True
+    return shared.search(ctl.stmt_text(frame.f_code.co_filename, st)) is not None
+  ctl = ilv.Controller(ctx, [R.__file__], bound, line_filter=line_filter)
+  tm = ilv.ThreadingModule(ctl)
+  out = sys.stdout; sys.stdout = io.StringIO(); err = sys.stderr; sys.stderr = io.StringIO()
+  problems = []
+  try:
+    R.time = clock; R.select = ilv.MSelect(ctl, clock)
+    U.makePinger = lambda: ilv.MPinger(); R.pox.lib.util.makePinger = U.makePinger
+    R.threading = tm; R.Thread = tm.Thread
+    s = R.Scheduler(isDefaultScheduler=True, startInThread=False, threaded_selecthub=(hub == 'threaded'))
+    R.defaultScheduler = s; s._random = lambda: 0
+    tick = [0]
+    def now():
+      tick[0] += 1; return tick[0]
+    ran = []                 # (k, thread, inside critical section?)
+    submitted = {}           # k -> submitting thread name, recorded when callLater() has returned
+    order = {}               # thread name -> [k...] in submission order
+    insec = [0]
+    wakes = []               # [start tick, returned?]
+    truns = []               # ticks at which the sleeper T started a run
+    klog = []
+    ncall = [0]
+    def f(k):
+      ran.append((k, tm.current_thread(), insec[0]))
+    def submit(who):
+      k = ncall[0]; ncall[0] += 1
+      order.setdefault(who, []).append(k)
+      s.callLater(f, k)
+      submitted[k] = who
+    T = None
+    if 'T' in extras:
+      def sleeper():
+        while True:
+          yield False
+          truns.append(now())
+      T = R.Task(target=sleeper); T.start(s)
+    def wake():
+      w = [now(), False]; wakes.append(w)
+      s.schedule(T)
+      w[1] = True
+    if 'K' in extras:
+      def stepper():
+        for i in range(3):
+          klog.append((i, insec[0]))
+          yield 0
+      R.Task(target=stepper).start(s)
+    if 'W' in extras:
+      def cowake():
+        yield 0
+        wake()
+        yield 0
+      R.Task(target=cowake).start(s)
+    if 'C' in extras:
+      def cocall():
+        yield 0
+        submit('coop')
+        yield 0
+      R.Task(target=cocall).start(s)
+    def foreign(name, prog):
+      for ch in prog:
+        if ch == 'c': submit(name)
+        elif ch == 'w': wake()
+        elif ch in 'SN':
+          depth = 2 if ch == 'N' else 1
+          def section(d):
+            with s.synchronized():
+              if d > 1: return section(d - 1)
+              insec[0] += 1
+              ctl.mark('in-section-1'); ctl.mark('in-section-2')
+              insec[0] -= 1
+          section(depth)
+    sched = ctl.spawn('sched', s.run)
+    s._thread = sched
+    phase = [0]; fthreads = []; polls = [0]
+    def pending():
+      p = []
+      for k in submitted:
+        if not any(r[0] == k for r in ran): p.append('callable %d not run' % k)
+      for w in wakes:
+        if w[1] and not any(t > w[0] for t in truns): p.append('task woken at %d has not run since' % w[0])
+      for t in fthreads:
+        if not t.done: p.append('thread %s is blocked in %s' % (t.name, t.blocked[2] if t.blocked else '?'))
+      return p
+    def on_stuck(timed):
+      if phase[0] == 0:
+        phase[0] = 1
+        for i, prog in enumerate(progs):
+          fthreads.append(ctl.spawn('F%d' % i, foreign, 'F%d' % i, prog)); fthreads[-1].prio = 0
+        return 'continue'
+      p = pending()
+      if not p: return 'quit'
+      polls[0] += 1
+      if polls[0] == 1: problems.append('work is pending but every thread is blocked - only a polling timeout can notice it: ' + '; '.join(p))
+      if polls[0] > 4: return 'quit'
+      return 'timeout' if timed else 'deadlock'
+    def on_step():
+      if T is not None and sum(1 for t in s._ready if t is T) > 1 and not any('queued twice' in x for x in problems):
+        problems.append('the woken task is queued twice')
+    try:
+      result = ctl.run(on_step, on_stuck)
+    finally:
+      s._hasQuit = True
+      stuck = ctl.drain()
+    if stuck: problems.append('threads did not finish: %r' % stuck)
+    problems += ctl.problems
+    for t in ctl.threads:
+      if t.exc is not None: problems.append('thread %s raised %r' % (t.name, t.exc))
+  finally:
+    sys.stdout = out; sys.stderr = err
+    gc.enable()
+    R.threading, R.Thread, R.select, R.time, U.makePinger = saved
+    R.pox.lib.util.makePinger = saved[4]
+  if problems and not ctx.sym:
+    print(problems); print('schedule:', ' '.join('%s:%s' % (a, c) for a, b, c in ctl.trace))
+  ctx.check('no deadlock, no lost or poll-dependent wake-up, no crash', not problems)
+  ks = [r[0] for r in ran]
+  ctx.check('every submitted callable ran exactly once', sorted(ks) == sorted(submitted) and len(submitted) == ncall[0])
+  ctx.check('callables ran on the scheduler thread', all(r[1] is sched for r in ran))
+  ctx.check('per-thread submission order', all([k for k in ks if k in lst] == lst for lst in order.values()))
+  ctx.check('nothing cooperative ran inside a synchronized section', not any(r[2] for r in ran) and not any(x[1] for x in klog))
+  if 'K' in extras: ctx.check('the stepping task finished', [x[0] for x in klog] == [0, 1, 2])
+  if T is not None:
+    done_wakes = [w for w in wakes if w[1]]
+    ctx.check('a woken task is never lost', all(any(t > w[0] for t in truns) for w in done_wakes))
+    ctx.check('wakes are not multiplied', len(truns) <= len(wakes))
+  ctx.note('steps', ctl.step)
+  if ctl.preemptions == bound: ctx.witness('bound-reached')
+  ctx.witness('done')
+
+
 def obligations(tier):
   thorough = tier != 'quick'
   A, T, Rl, Z = 'acq', 'try', 'rel', 'zero'
@@ -241,12 +408,15 @@ def obligations(tier):
   import itertools
   idle_plans = [''.join(p) for n in (1, 2, 3) for p in itertools.product('BWCTI', repeat=n) if 'I' in p]
   if thorough: idle_plans += [''.join(p) for p in itertools.product('BWCTI', repeat=4) if p.count('I') >= 1]
+  pre = [dict(scenario=sc, hub=h, bound=1) for sc in SCENARIOS for h in ('inline', 'threaded')]
   BOUNDS[tier] = dict(lock_programs=len(lp), calllater_plans=cl, idle_plans="all sequences over {B,W,C,T,I} with an idle, length <= %d" % (4 if thorough else 3), legend="c callLater(symbolic: raises?), C callLater preempted inside its wake-up ping (scheduler runs to quiescence there), y scheduler step, w schedule(sleeping task)")
   return [
     Obligation('O1_locks', h_locks, [dict(progs=p, nlocks=n) for p, n in lp], witnesses=('done', 'unheld-release-raised'), max_decisions=20000, mode='int',
                desc='Lock mutual exclusion / hand-off / no lost waiter over task programs'),
     Obligation('O2_handoff', h_calllater, [dict(plan=p) for p in cl], witnesses=('done',), max_decisions=20000, mode='int',
                desc='callLater / schedule at operation granularity: exactly once, in order, inside the scheduler; single queueing of woken tasks'),
+    Obligation('O4_preempt', h_preempt, pre, witnesses=('done', 'bound-reached'), max_decisions=20000, mode='int', path_seconds=120,
+               desc='real threads (foreign, scheduler, hub) interleaved at source-line granularity of recoco.py, all schedules with a bounded number of preemptions'),
     Obligation('O3_idle', h_idle, [dict(plan=p) for p in idle_plans], witnesses=('done',), mode='int',
                desc='threaded select hub, operation granularity: a wake-up since the last idle() makes the next idle() return at once; otherwise it blocks <= CYCLE_MAXIMUM'),
   ]
